@@ -76,11 +76,23 @@ CHECKS += [
     other('C18', 'Bounded symbolic execution with a reference oracle: batches of 0..3 (thorough 0..5) events with every key a 32-bit symbol over the 484 codes, every output byte checked by a validity query; reader over fully symbolic 24-byte records; round trip reader(writer(batch)).',
           'Trusted: input_event layout of x86-64/aarch64 Linux (24 bytes, little endian; size checked natively), read/write stubs as byte channels, summary of the derived FromPrimitive (established by running its MIR on 0..1023), MIR text = program.',
           'symbolic execution of the real MIR of DevInputWriter::send, StructSerializer::add_*, DevInputReader::next with nix read/write stubbed; z3 validity queries per byte/record; native replay through a pipe'),
+    other('C13', 'Bounded symbolic execution with a reference oracle: layout programs (rows, aliases with one or several definitions, plain/alias modifiers, repeat-only entries, every repeat form, absorbing) are converted by the real parser+converter MIR; in row programs one letter position at a time is a symbolic printable-ASCII character decided by the solver at the table lookup; the result is compared with a hand-written expansion built from an independent US-QWERTY table; equivalent spellings must convert identically.',
+          'Trusted: the hand-written expansion (oracle); the emission rule for alias definitions themselves is taken from the code (the property does not define it); serde_json text parsing is dependency code; String/HashMap/serde_json::Value models (validated natively on the concrete programs each run).',
+          'symbolic execution of the real MIR of parse_layout_from_json + convert (incl. lazily initialised tables) with symbolic letters, z3-decided table lookups, reference expansion oracle, native replay'),
+    other('C14', 'Bounded symbolic execution looking for panics: serde_json::Value trees derived from a structure-aware grammar (wrong types, missing/extra fields, empty arrays, repeated keys, undefined/misplaced aliases, over-long rows, unknown characters, symbolic 64-bit numbers) run through parse -> convert -> Mapper::for_layout; accepted layouts and the whole mapper corpus are driven with symbolic key histories watching for panics.',
+          'Trusted: the claim starts at serde_json::Value (bytes are parsed by serde_json); the grammar bounds (<= 3 source mappings, string pools); panics are first-class outcomes of mirsym (failed MIR asserts, unwrap/expect, index, begin_panic).',
+          'symbolic execution of the real MIR of the loader pipeline over a grammar of Value trees with symbolic numbers; panic reachability; shared mapper fixpoint exploration for accepted layouts; native replay'),
+    other('C15', 'Bounded symbolic execution with a round-trip oracle: basic layouts (structure concrete, one key position symbolic at a time over all 484 codes, delay/interval symbolic i32) are serialised by the derived Serialize impls (crate MIR) against a model serializer and reloaded by the real parser+converter MIR; equality of the reloaded layout is decided per path / by validity queries.',
+          'Trusted: the model serializer\'s correspondence to serde_json\'s writer (checked natively on concrete layouts each run); MIR text = program.',
+          'symbolic execution of the real MIR of the derived Serialize impls + parse_layout_from_json + convert; a symbolic key forks into its 484 written names; z3 validity queries on delay/interval; native save/reload replay through a temporary file'),
+    other('C16', 'Bounded symbolic execution with a relational oracle: /proc/bus/input/devices texts assembled from realistic entries with symbolic structure (presence/order of lines, entry order, exclude patterns) and symbolic hex digits in the KEY and EV masks (solver-decided thresholds); both extractors must agree, classification must not depend on neighbours/order, and both discovery paths must select exactly the real, non-virtual, non-excluded keyboards.',
+          'Trusted: /proc text format assumptions (every entry starts with I:), finite pools of names/paths/masks, stubs for read_to_string, the sysfs walk (dev_path_for_sysfs_name) and canonicalize, the */? glob contract of wildmatch; native replays run the real list_keyboards / filter_devices_verbose in a private mount namespace with a fake /proc, /sys and /dev/input.',
+          'symbolic execution of the real MIR of both extractors, parse_mask_hex, list_keyboards, list_input_devices, flag_excluded*, filter_devices_verbose with environment stubs; metamorphic (relational) oracle; z3-decided mask digits; native replay in a mount namespace'),
 ]
 
 ALL = ['C%02d' % i for i in range(1, 21)]
 claimed = {c['property_id'] for c in CHECKS}
-NA = [{'property_id': p, 'reason': 'check under construction in this round (engine: mirsym); not claimed until its harness is committed'} for p in ALL if p not in claimed]
+NA = [{'property_id': p, 'reason': 'no check registered'} for p in ALL if p not in claimed]
 
 M = {
     'version': 1,
